@@ -27,37 +27,10 @@ impl<'a> Read for Script<'a> {
         Ok(n)
     }
 }
-// ---- watchdog: a reader that spins without reading (non-termination on a finite input) must fail the check, not hang it.
-// Every read of the scripted transports is a heartbeat; a test body runs on its own thread and the test fails when the
-// heartbeat stops for STALL_SECS while the body has not finished.
-const STALL_SECS: u64 = 20;
-struct Beat { n: std::sync::atomic::AtomicU64, last: std::sync::Mutex<Vec<u8>> }
-thread_local! { static BEAT: std::cell::RefCell<Option<std::sync::Arc<Beat>>> = std::cell::RefCell::new(None); }
-fn beat() { BEAT.with(|b| if let Some(b) = &*b.borrow() { b.n.fetch_add(1, std::sync::atomic::Ordering::Relaxed); }) }
-fn note_wire(w: &[u8]) { BEAT.with(|b| if let Some(b) = &*b.borrow() { let mut l = b.last.lock().unwrap(); l.clear(); l.extend_from_slice(&w[..w.len().min(80)]); }) }
-fn watched(body: fn()) {
-    let b = std::sync::Arc::new(Beat { n: std::sync::atomic::AtomicU64::new(0), last: std::sync::Mutex::new(Vec::new()) });
-    let b2 = b.clone();
-    let (tx, rx) = std::sync::mpsc::channel();
-    std::thread::Builder::new().name(std::thread::current().name().unwrap_or("vp_native").to_string()).stack_size(16 << 20).spawn(move || {
-        BEAT.with(|x| *x.borrow_mut() = Some(b2));
-        let r = std::panic::catch_unwind(body);
-        let _ = tx.send(r);
-    }).unwrap();
-    let (mut last, mut idle) = (u64::MAX, 0u64);
-    loop {
-        match rx.recv_timeout(std::time::Duration::from_secs(1)) {
-            Ok(Ok(())) => return,
-            Ok(Err(p)) => std::panic::resume_unwind(p),
-            Err(std::sync::mpsc::RecvTimeoutError::Timeout) => {
-                let now = b.n.load(std::sync::atomic::Ordering::Relaxed);
-                if now == last { idle += 1; } else { idle = 0; last = now; }
-                if idle >= STALL_SECS { panic!("the reader made no read for {} s and did not return (non-termination); start of the input being read: {:?}", STALL_SECS, String::from_utf8_lossy(&b.last.lock().unwrap())); }
-            }
-            Err(_) => panic!("the check's body thread vanished"),
-        }
-    }
-}
+// (the watchdog is shared: native/watchdog.rs; `beat` / `note_wire` remain as no-ops of the scripted transports)
+fn beat() {}
+fn note_wire(_w: &[u8]) {}
+fn watched(body: fn()) { crate::verif_native_watchdog::watched(body) }
 fn reader<'a>(data: &'a [u8], seg: usize) -> ChunkedReader<Script<'a>> {
     ChunkedReader::new(BufReader::with_capacity(7, Script { data, pos: 0, seg, calls: 0, fail_at: None, kind: io::ErrorKind::Other, sticky: false }))
 }
@@ -143,7 +116,7 @@ fn vp_native_chunked_wellformed_delivered_exactly_body() {
                         for sizes in [&[1usize][..], &[2], &[3, 1], &[64], &[0, 5]] {
                             let mut r = reader(&wire, seg);
                             let (got, end) = drain(&mut r, sizes, 400);
-                            cases += 1;
+                            cases += 1; crate::verif_native_watchdog::progress();
                             assert_eq!(end, Ok(()), "wire {:?} seg {} sizes {:?}", wire, seg, sizes);
                             assert_eq!(got, payload, "wire {:?} seg {} sizes {:?}", wire, seg, sizes);
                         }
@@ -167,7 +140,7 @@ fn vp_native_chunked_big_chunks_any_read_schedule_body() {
             for sizes in [&[1usize, 131072][..], &[131072], &[65536], &[65535, 2], &[70000, 1], &[1, 65536, 3], &[8192]] {
                 let mut r = ChunkedReader::new(BufReader::new(Script { data: &wire, pos: 0, seg, calls: 0, fail_at: None, kind: io::ErrorKind::Other, sticky: false }));
                 let (got, end) = drain(&mut r, sizes, 1_000_000);
-                cases += 1;
+                cases += 1; crate::verif_native_watchdog::progress();
                 assert_eq!(end, Ok(()), "len {} seg {} sizes {:?}", len, seg, sizes);
                 assert!(got == payload, "payload of {} bytes differs (first difference at {:?}) seg {} read sizes {:?}", len,
                         got.iter().zip(&payload).position(|(a, b)| a != b), seg, sizes);
@@ -216,7 +189,7 @@ fn vp_native_chunked_truncation_corruption_faults_body() {
                                 assert!(got.len() <= owed.len() && got[..] == owed[..got.len()],
                                     "handed out {:?}, not a prefix of the payload {:?}; wire {:?} seg {} sizes {:?} fault {:?} {:?}", got, owed, wire, seg, sizes, fail, kind);
                             }
-                            cases += 1;
+                            cases += 1; crate::verif_native_watchdog::progress();
                         }
                     }
                 }
@@ -268,7 +241,7 @@ fn vp_native_chunked_big_chunks_truncated_body() {
                         }
                         assert!(got.len() <= payload.len() && got[..] == payload[..got.len()], "handed out {} bytes that are not a prefix of the payload; cut {} stream end {:?} seg {} sizes {:?}", got.len(), cut, end, seg, sizes);
                     }
-                    cases += 1;
+                    cases += 1; crate::verif_native_watchdog::progress();
                 }
             } }
         }
@@ -283,8 +256,8 @@ fn vp_native_chunked_hostile_inputs_terminate() { watched(vp_native_chunked_host
 fn vp_native_chunked_hostile_inputs_terminate_body() {
     let mut cases = 0u64;
     let depth = if std::env::var("VP_TIER").as_deref() == Ok("thorough") { 7 } else { 6 };
-    for wire in hostile_wires(depth) { let mut r = reader(&wire, 2); let _ = drain(&mut r, &[3], 100); cases += 1; }
-    for wire in special_wires() { for seg in [1usize, 64, 100_000] { let mut r = reader(&wire, seg); let _ = drain(&mut r, &[16, 3, 70_000], 400); cases += 1; } }
+    for wire in hostile_wires(depth) { let mut r = reader(&wire, 2); let _ = drain(&mut r, &[3], 100); cases += 1; crate::verif_native_watchdog::progress(); }
+    for wire in special_wires() { for seg in [1usize, 64, 100_000] { let mut r = reader(&wire, seg); let _ = drain(&mut r, &[16, 3, 70_000], 400); cases += 1; crate::verif_native_watchdog::progress(); } }
     println!("VP-NATIVE chunked_hostile_inputs_terminate cases={}", cases);
 }
 fn hostile_wires(maxlen: usize) -> Vec<Vec<u8>> {
@@ -334,7 +307,7 @@ fn vp_native_chunked_hostile_inputs_match_spec_body() {
         assert!(want.starts_with(&got), "delivered bytes are not a prefix of what {:?} frames", wire);
         // C02 speaks about incomplete or malformed framing only: a clean end needs complete framing (that complete bodies are delivered is C01)
         assert!(clean || end.is_err(), "{:?}: ended {:?} although the framing is incomplete or malformed", wire, end);
-        cases += 1;
+        cases += 1; crate::verif_native_watchdog::progress();
     }
     for wire in &special_wires() { for seg in [1usize, 64, 100_000] {
         let (want, clean) = fut(wire);
@@ -345,7 +318,7 @@ fn vp_native_chunked_hostile_inputs_match_spec_body() {
         if clean { /* delivering complete bodies is C01's clause */ }
         else if clean_u { assert!(end.is_err() || got == want_u, "a body with an over-long size line is either refused or delivered in full: {:?}...", &wire[..wire.len().min(40)]); }
         else { assert!(end.is_err(), "malformed or truncated body ended with Ok: {:?}... ({} bytes delivered)", &wire[..wire.len().min(40)], got.len()); }
-        cases += 1;
+        cases += 1; crate::verif_native_watchdog::progress();
     } }
     println!("VP-NATIVE chunked_hostile_inputs_match_spec cases={}", cases);
 }
@@ -364,7 +337,7 @@ fn vp_native_chunked_size_line_input_bound_body() {
         assert!(end.is_err() && b"hello".starts_with(&got), "an endless chunk-size line must be an error: {:?}... -> {:?}", &wire[..20.min(wire.len())], end);
         let used = r.inner.get_ref().pos;
         assert!(used <= prefix.len() + line_max() + 7 + seg, "{} bytes of an endless chunk-size line were consumed (line of {} bytes, segments of {})", used, n, seg);
-        cases += 1;
+        cases += 1; crate::verif_native_watchdog::progress();
     } } } }
     println!("VP-NATIVE chunked_size_line_input_bound cases={}", cases);
 }
@@ -397,7 +370,7 @@ fn vp_native_chunked_data_delivered_as_it_arrives_body() {
                     }
                     if got.len() >= want.len() { break; }
                 }
-                cases += 1;
+                cases += 1; crate::verif_native_watchdog::progress();
                 assert!(got == want, "only {} of {} bytes of completely received chunks (sizes {:?}) could be read before the reader waited for more input (read size {}, segments {})",
                         got.len(), want.len(), chunks.iter().map(|c| c.len()).collect::<Vec<_>>(), rs, seg);
             } }
@@ -417,7 +390,7 @@ fn vp_native_chunked_data_delivered_as_it_arrives_body() {
         for again in 1..=3 { let mut buf = vec![0u8; rs]; match r.read(&mut buf) {
             Ok(0) => {}
             other => panic!("read #{} after the end of a complete chunked body ({} bytes, read size {}) did not return Ok(0) at once: {:?} (the transport has nothing more and would block)", again, a, rs, other.map_err(|e| e.kind())) } }
-        cases += 1;
+        cases += 1; crate::verif_native_watchdog::progress();
     } } }
     println!("VP-NATIVE chunked_data_delivered_as_it_arrives cases={}", cases);
 }
